@@ -39,6 +39,9 @@
 //	                                        and written counter cells
 //	srv.TableEntries(tableID)               raw clones of the entries of one table (sorted by key)
 //	srv.PacketOuts()                        payloads of the PacketOut messages received on any stream
+//	srv.PacketOutsSeen() / srv.PacketOutRecs(from)   number of PacketOuts received so far / the PacketOuts from index
+//	                                        `from` on, each with the number of Write RPCs the server had received when
+//	                                        it arrived (order of a PacketOut relative to the Writes)
 //	srv.InjectDigest(list) / srv.InjectDDN(ueAddr)   send a DigestList to every open stream (InjectDDN: the
 //	                                        4-byte UE address bitstring UP4.listenToDDNs expects); returns the
 //	                                        number of streams written
@@ -178,6 +181,12 @@ type vp4HoldState struct {
 	release chan struct{}
 }
 
+// vp4PktRec is one PacketOut together with its position relative to the Write RPCs.
+type vp4PktRec struct {
+	Writes  int // Write RPCs received by the server before this PacketOut arrived
+	Payload []byte
+}
+
 type vp4Opts struct {
 	P4InfoText string
 	Sizes      map[string]int64
@@ -209,6 +218,7 @@ type vp4Server struct {
 	reads    int
 	faults   map[int]vp4Fault
 	pktOuts  [][]byte
+	pktW     []int
 	streams  map[*vp4Stream]struct{}
 	holds    map[int]*vp4HoldState
 	holdSeq  int
@@ -337,6 +347,7 @@ func (s *vp4Server) resetLocked() {
 	s.log = nil
 	s.faults = map[int]vp4Fault{}
 	s.pktOuts = nil
+	s.pktW = nil
 }
 
 func (s *vp4Server) Reset() {
@@ -401,6 +412,25 @@ func (s *vp4Server) PacketOuts() [][]byte {
 	defer s.mu.Unlock()
 
 	return append([][]byte(nil), s.pktOuts...)
+}
+
+func (s *vp4Server) PacketOutsSeen() int {
+	s.mu.Lock()
+	defer s.mu.Unlock()
+
+	return len(s.pktOuts)
+}
+
+func (s *vp4Server) PacketOutRecs(from int) []vp4PktRec {
+	s.mu.Lock()
+	defer s.mu.Unlock()
+
+	out := []vp4PktRec{}
+	for i := from; i < len(s.pktOuts); i++ {
+		out = append(out, vp4PktRec{Writes: s.pktW[i], Payload: append([]byte(nil), s.pktOuts[i]...)})
+	}
+
+	return out
 }
 
 func (s *vp4Server) Streams() int {
@@ -1146,6 +1176,7 @@ func (s *vp4Server) StreamChannel(srv p4.P4Runtime_StreamChannelServer) error {
 		case *p4.StreamMessageRequest_Packet:
 			s.mu.Lock()
 			s.pktOuts = append(s.pktOuts, append([]byte(nil), x.Packet.GetPayload()...))
+			s.pktW = append(s.pktW, s.writes)
 			s.mu.Unlock()
 		default:
 			// digest acks and anything else: ignored
